@@ -323,6 +323,8 @@ def fam_md(rnd, tier):
                     c["reusemd"] = rnd.random() < 0.5
                     c["binpad"] = rnd.random() < 0.5
                     c["reqmd"], c["reqwant"] = reqmd, want
+                    # metadata does not depend on the mux options: a third of the cases run with a stats handler and / or interceptors
+                    c["opts"] = rnd.choice([[], [], [], [], ["stats"], ["stats", "unaryInt", "streamInt"]])
                     sc = recv_all(c)
                     hdr = {"x-h": ["1", "2"], "x-hb-bin": [rnd.choice(bins[1:])]}
                     if rnd.random() < 0.4:
@@ -396,6 +398,8 @@ def fam_opts(scripts, rnd, tier):
                         nrep = 2 if shape in ("sstream", "bidi") else 1
                         sc += [act("send", size=rnd.choice([-1, 0, 1, 4, 5, 600])) for _ in range(nrep)]
                         sc.append(act("ret", code=0) if outcome == "ok" else act("ret", code=9, msg=["plain"]))
+                    if rnd.random() < 0.4:   # header and trailer metadata, also under one key
+                        sc = [act("sethdr", md={"x-h": ["1", "2"], "x-only-h": ["h"]}), act("settrl", md={"x-h": ["late"], "x-only-t": ["t"]})] + sc
                     c["script"] = sc
                     # request metadata: what the handler sees of it must not depend on the options either (a stats handler
                     # owns the header map of its in-header event, not the RPC's)
@@ -506,7 +510,10 @@ def run(prop, tier, replay=None):
                     if g:
                         strip = lambda rs: [(r["idx"], r["equal"], r["err"]) for r in rs]   # sizes depend on the digits of the case id
                         view = json.dumps(dict(http=e["cl"]["http"], msgs=strip(e["cl"]["msgs"]), status=e["cl"]["status"], crash=bool(e["crash"]),
-                                               recv=strip(e["h"]["recv"]), hmd={k: e["h"]["md"].get(k) for k in (e.get("reqwant") or {})}), sort_keys=True)
+                                               recv=strip(e["h"]["recv"]), hmd={k: e["h"]["md"].get(k) for k in (e.get("reqwant") or {})},
+                                               # ... nor the response metadata the client sees (custom keys)
+                                               chdr={k: v for k, v in (e["cl"].get("hdr") or {}).items() if k.startswith("x-")},
+                                               ctrl={k: v for k, v in (e["cl"].get("trl") or {}).items() if k.startswith("x-")}), sort_keys=True)
                         groups[g].append((e["case"], view, e))
             for g, lst in groups.items():
                 base_view = next((v for cid, v, e in lst if not e["c"]["opts"]), lst[0][1])
